@@ -394,6 +394,28 @@ def run(ctx):
     from vt.checks import xcli
 
     xcli.artifact_cli_part(ctx)
+    # two searches in progress at once (a scanner is a generator: a caller may advance several of them in turn, or start one inside the
+    # loop over another): each reports what it reports alone
+    import itertools
+
+    rng2 = random.Random(ctx.seed + 1515)
+    for size in (300, 9000, 30000):
+        ndl = b"NEEDLE"
+        hs = []
+        for _k in range(2):
+            h_ = bytearray(rng2.choice(b"abcxyz") for _ in range(size))
+            for _j in range(rng2.randrange(3, 9)):
+                p_ = rng2.randrange(0, size - len(ndl))
+                h_[p_ : p_ + len(ndl)] = ndl
+            hs.append(bytes(h_))
+        solo = [list(utils.iter_find_needle(io.BytesIO(h_), ndl, start_offset=0)) for h_ in hs]
+        both = core.outcome(lambda: list(itertools.zip_longest(utils.iter_find_needle(io.BytesIO(hs[0]), ndl, start_offset=0), utils.iter_find_needle(io.BytesIO(hs[1]), ndl, start_offset=0))))
+        nested = core.outcome(lambda: [(a_, list(utils.iter_find_needle(io.BytesIO(hs[1]), ndl, start_offset=0))) for a_ in utils.iter_find_needle(io.BytesIO(hs[0]), ndl, start_offset=0)])
+        ctx.evaluations += 2
+        if both != ("ok", list(itertools.zip_longest(solo[0], solo[1]))) or nested != ("ok", [(a_, solo[1]) for a_ in solo[0]]):
+            ctx.violation("two scans in progress at once disturb each other", {"op": "iter_find_needle", "failed": "interleaved_scans"},
+                          {"size": size, "alone": [solo[0][:8], solo[1][:8]], "in_turn": str(both)[:200], "nested": str(nested)[:200]})
+        ctx.count_distinct(("interleaved", size))
     # history freedom of the functions of their input behind this property (Pure.tla)
     from vt.checks import xpure
 
